@@ -164,7 +164,7 @@ def run_case(case, R):
             series = Yc - (Xc - pX[None, :]) @ b
             R.hit("control_variate_checks")
             scale = abs(series.mean()) + np.std(Yc) + 1e-12
-            if abs(pr[c] - series.mean()) > 1e-8 * scale:
+            if not (abs(pr[c] - series.mean()) <= 1e-8 * scale):
                 kind = f"{case['cv_prices']}-prices-{len(cvs)}-controls"
                 R.violation(f"cv-price-not-regression-estimator-{kind}", f"component {c}: price with {len(cvs)} control(s) = {pr[c]!r}, "
                             f"mean(Y - b*(X - price_X)) with the sample regression coefficient b* = {b.tolist()} is {series.mean()!r} "
